@@ -427,6 +427,17 @@ where
   }
 }
 
+/// Kani harnesses for this module live out of tree; the directory is named
+/// by `ANWEISS_CDDL_VERIF_DIR` when the crate is built by `cargo kani`.
+#[cfg(kani)]
+mod verif_kani {
+  use super::*;
+  include!(concat!(
+    env!("ANWEISS_CDDL_VERIF_DIR"),
+    "/kani/cbor_value.rs"
+  ));
+}
+
 #[cfg(test)]
 mod tests {
   use super::*;
